@@ -115,7 +115,8 @@ def v2(ctx):
             kinds.append("false")
         else:
             c = d["call"]
-            ok = c.callee and c.callee.name == "is_bijection" and strip_role(b.role_of_operand(c.args[0])) == ("param", "map")
+            mp = [b.var_names.get(l) for l in range(1, b.argc + 1) if "slotmap::SlotMap" in b.local_ty(l)]
+            ok = c.callee and c.callee.name == "is_bijection" and strip_role(b.role_of_operand(c.args[0])) in [("param", x) for x in mp]
             ins = {x.bb for x in b.calls if x.callee and x.callee.name == "insert"}
             after = ok and b.dominated_by(c.bb, ins)
             ctx.check(bool(after), "returns-is-bijection-after-insert", "otherwise the result is map.is_bijection() evaluated after the insert",
@@ -125,7 +126,9 @@ def v2(ctx):
     for c in b.calls:
         if c.callee and c.callee.name == "insert":
             a = [strip_role(b.role_of_operand(x)) for x in c.args]
-            ctx.check(a == [("param", "map"), ("param", "k"), ("param", "v")], "insert-k-v", "map.insert(k, v)", "the map is updated with %s" % [role_str(x) for x in a], where_of(b, c.bb))
+            mp = [b.var_names.get(l) for l in range(1, b.argc + 1) if "slotmap::SlotMap" in b.local_ty(l)]
+            sl = [b.var_names.get(l) for l in range(1, b.argc + 1) if b.local_ty(l) == "slot::Slot"]
+            ctx.check(len(mp) == 1 and len(sl) == 2 and a == [("param", mp[0]), ("param", sl[0]), ("param", sl[1])], "insert-k-v", "map.insert(k, v)", "the map is updated with %s" % [role_str(x) for x in a], where_of(b, c.bb))
 
 
 @rule("V3", doc="a variant is accepted only if its name-free shape equals the pattern node's")
